@@ -521,6 +521,25 @@ func runQueueWL(e *Env) {
 			if wl.Bias(1, 4) {
 				res.TailTasks, in.Tail = mk(1 + wl.Choose(2))
 			}
+			if wl.Bias(1, 3) {
+				// a handler that builds its new tasks in one slice and hands out sub-slices of it
+				// (legal: the three results share a backing array and have spare capacity)
+				all := make([]task.Task, 0, len(res.AfterTasks)+len(res.HeadTasks)+len(res.TailTasks)+3)
+				all = append(all, res.AfterTasks...)
+				all = append(all, res.HeadTasks...)
+				all = append(all, res.TailTasks...)
+				a, h := len(res.AfterTasks), len(res.HeadTasks)
+				if a > 0 {
+					res.AfterTasks = all[:a]
+				}
+				if h > 0 {
+					res.HeadTasks = all[a : a+h]
+				}
+				if len(res.TailTasks) > 0 {
+					res.TailTasks = all[a+h:]
+				}
+				simrt.Count("probe:handler-results-share-a-backing-array")
+			}
 		}
 		applyCall := e.Seq()
 		st := res.Status
